@@ -412,6 +412,16 @@ pub fn io_harness(spec: &RunSpec) -> RunOutput {
         Some(p) => p.clone(),
         None => gen_io_plan(spec.seed, spec.tier == crate::gen::Tier::Thorough),
     };
+    if spec.plan_only {
+        return RunOutput {
+            violations: vec![],
+            harness_error: None,
+            stats: RunStats::default(),
+            choices: vec![],
+            trace: vec![],
+            plan,
+        };
+    }
     let mut st = RunStats::default();
     let mut violations = Vec::new();
     let mut trace = Vec::new();
